@@ -114,7 +114,10 @@ func v3Stages(v string, match string) []stage {
 					}
 					return base.Label[i+len(m)+1 : i+len(m)+2]
 				}
-				if req("CR") != req("IR") || req("IR") != req("AR") {
+				// ... and, for three representative exploitability classes, all 64 requirement
+				// triples (a requirement weight applied to the wrong impact metric shows only there)
+				expl := req("AV") + req("AC") + req("PR") + req("UI")
+				if (req("CR") != req("IR") || req("IR") != req("AR")) && expl != "NLNN" && expl != "PHHR" && expl != "ALLN" {
 					continue
 				}
 			}
@@ -181,7 +184,7 @@ func v3Stages(v string, match string) []stage {
 		{Name: "cut-inner-x-temporal/safety", Pkg: v, Func: "(" + T + ").EnvironmentalScore", Match: `^$`, Opts: RunOpts{OnCall: cutHook},
 			Space: "float-to-int conversions of the outer Roundup: inner value (101 tenths, cut) x E x RL x RC on two representative objects (non-zero / zero impact); the inner stage's conversions are goals of the thorough stage", Insts: envS2ground},
 		{Name: "all-effective-x-equal-requirements", Pkg: v, Func: "(" + T + ").EnvironmentalScore", Match: match, Opts: RunOpts{OnCall: cutHook}, Tier: "quick",
-			Space: "8 effective base metrics x (CR = IR = AR) = 10368 of the 165888 classes of the inner stage (the thorough tier runs all of them)", Insts: envS1quick, Extra: envS1Extra},
+			Space: "the classes of the inner stage with CR = IR = AR, plus all 64 requirement triples for three exploitability classes (N/L/N/N, P/H/H/R, A/L/L/N): 20088 of the 165888 classes (the thorough tier runs all of them)", Insts: envS1quick, Extra: envS1Extra},
 		{Name: "all-effective-x-CR,IR,AR", Pkg: v, Func: "(" + T + ").EnvironmentalScore", Match: match, Opts: RunOpts{OnCall: cutHook}, Tier: "thorough",
 			Space: "8 effective base metrics x CR x IR x AR = 165888 (Modified metrics X, lifted by C10)", Insts: envS1, Extra: envS1Extra},
 	}
